@@ -62,7 +62,7 @@ func genC08(dir, tier string, seed int64) {
 		maxRank, keep = 3, 1
 	}
 	raw := newCaseWriter(dir, "C08_ops", opHeader("CheckC08"), opFooter,
-		fmt.Sprintf("bounded-exhaustive: all data shapes of rank 1..%d with extents 1..3 x (Transpose: all permutations, non-permutations (all zeros, a repeated entry, an entry r, r+1 or -1 at every position), a too-short and a too-long perm, default; Concat: every axis in [-r-1,r] with 1..3 inputs incl. one differing extent per axis; Gather: every axis in [-r-1,r], index tensors of shape (),(1),(2),(2,2),(1,3) with positive, negative and out-of-range indices; Expand: every target shape of rank 1..3; Slice: every axis in both spellings x all (start,end) in [-d-2,d+2]^2 x steps {1,2,3,-1} + INT64 extremes + all two-axis slices of rank-2 data); index-coded data, dtype round-robin over all 14 element types, every Transpose / Concat / Gather case additionally as int64 and as float32; index tensors int32 instead of int64 in every fourth Gather / Slice case; quick tier keeps a seeded 1/%d sample of the Slice sweep of rank 3 and of Expand", maxRank, keep), tier == "thorough", 1200)
+		fmt.Sprintf("bounded-exhaustive: all data shapes of rank 1..%d with extents 1..3 x (Transpose: all permutations, non-permutations (all zeros, a repeated entry, an entry r, r+1 or -1 at every position), a too-short and a too-long perm, default; Concat: every axis in [-r-1,r] with 1..3 inputs incl. one differing extent per axis and inputs of two different element types; Gather: every axis in [-r-1,r], index tensors of shape (),(1),(2),(2,2),(1,3) with positive, negative and out-of-range indices; Expand: every target shape of rank 1..3; Slice: every axis in both spellings (and the same axis shifted out of range by r and 2r on either side) x all (start,end) in [-d-2,d+2]^2 x steps {1,2,3,-1} + INT64 extremes + all two-axis slices of rank-2 data); index-coded data, dtype round-robin over all 14 element types, every Transpose / Concat / Gather case additionally as int64 and as float32; index tensors int32 instead of int64 in every fourth Gather / Slice case; quick tier keeps a seeded 1/%d sample of the Slice sweep of rank 3 and of Expand", maxRank, keep), tier == "thorough", 1200)
 	cw := &opEmitter{cw: raw}
 	sel := func(rk int) bool { return rk <= 2 || keep == 1 || rnd.Intn(keep) == 0 }
 	// the data dtype goes round-robin over all 14; Transpose / Concat / Gather cases are emitted twice more,
@@ -135,6 +135,12 @@ func genC08(dir, tier string, seed int64) {
 			}
 			cw.emit("Concat", []attr{aInt("axis", a64)}, func() []tensor.Tensor { return []tensor.Tensor{f32t(s), f32t(s), f32t(s)} })
 			cw.emit("Concat", []attr{aInt("axis", a64)}, one)
+			// inputs of two different element types: refused (ONNX: one type for all inputs), never a panic
+			if a == 0 {
+				other := func(s []int) tensor.Tensor { return mkT(dtypes[(cw.k+3)%14], s, iota64(numel(s), 100)) }
+				cw.emit("Concat", []attr{aInt("axis", a64)}, func() []tensor.Tensor { return []tensor.Tensor{f32t(s), other(s)} })
+				cw.emit("Concat", []attr{aInt("axis", a64)}, func() []tensor.Tensor { return []tensor.Tensor{f32t(s), f32t(s), other(s)} })
+			}
 		}
 		for a := -r - 1; a <= r; a++ {
 			a64 := int64(a)
@@ -203,6 +209,16 @@ func genC08(dir, tier string, seed int64) {
 				}
 			}
 			a64 := int64(a)
+			// the same axis named out of range on either side (a - r, a - 2r, a + r, a + 2r): refused, never wrapped
+			for _, off := range []int{-r, -2 * r, r, 2 * r} {
+				ao := int64(a + off)
+				if int(ao) >= -r && int(ao) < r {
+					continue
+				}
+				cw.emit("Slice", nil, func() []tensor.Tensor {
+					return []tensor.Tensor{f32t(s), i64t([]int{1}, []int64{0}), i64t([]int{1}, []int64{1}), i64t([]int{1}, []int64{ao})}
+				})
+			}
 			for _, ext := range [][2]int64{{0, math.MaxInt64}, {1, math.MaxInt64}, {math.MinInt64, 2}, {0, math.MinInt64}} {
 				ext := ext
 				cw.emit("Slice", nil, func() []tensor.Tensor {
